@@ -42,6 +42,17 @@ var     : a synthesized variable font (two axes) whose GSUB has an rvrn feature 
           calls under four scripts, no tuple / the default instance / other tuples, masks and custom lists, up to the
           depth (the path is part of the VIEW) - calls that FAIL half-way are part of the histories.  Defect classes
           FailKeep (working state of a failed call survives) and RegionMemo (a region scalar memoised without the tuple).
+Round 4 added two families (and two defect classes for the vacuity run `memo`):
+strike  : fonts whose one bitmap table (EBLC/EBDT, CBLC/CBDT) has several strikes that differ in size, bit depth and glyph
+          range; lookup_glyph_image(glyph, size, bit depth limit) is modelled with the strike selection of
+          CBLCTable::find_strike; ALL histories of image lookups and filter changes up to the depth.  Defect class NegCache
+          (a per-glyph memo of "no image").
+pairs   : a font whose GPOS PairPos lookups have several sub-tables with overlapping Coverages (format 1 exceptions before
+          and after a format 2 class table); the model decides per pair of neighbours which sub-table handles it (the first
+          in order); ALL histories of shaping calls over twelve texts up to the depth.  Defect class SubMRU (the parsed
+          lookup remembers the sub-table that matched last).
+          For both families the harness also reports what the FRESH font answered in the model's vocabulary (size and depth
+          of the bitmap; kerning per glyph) and the judge compares it with the model (UNBOUND lines, a deferred self-check).
 Order of verdicts: checks that depend only on TLC data / harness inputs raise ToolError at once; checks that
 depend on what allsorts answered are deferred until the violations are known and only raised when there is none.
 """
@@ -77,6 +88,11 @@ ASSUMPTIONS = [
     "Noto Naskh Arabic under languages nobody has heard of; scripts / languages nobody has heard of fall back to DFLT / the "
     "default language system, as OpenType says",
     "scopes: the subject is a pair of ReadCache objects (Coverage, ClassDef) over one buffer; fresh = new caches",
+    "strike fonts: synthesized TrueType fonts with one EBLC/EBDT or CBLC/CBDT pair of four strikes (sizes 12 and 24; bit depths "
+    "1, 8, 32; overlapping glyph ranges; index format 1, image format 1); random histories: 3-6 random strikes; bit depth "
+    "limits One..ThirtyTwo; sizes <= 255",
+    "pairs font: a synthesized GPOS with two PairPos lookups (kern: format 1, format 2, format 1; dist: format 2, format 1) whose "
+    "Coverages overlap; value format 1 = xAdvance only; texts of upper-case letters, no marks, no GDEF",
     "var font: a synthesized TrueType font with fvar (wght, wdth), GSUB / GPOS with one Script table per script (latn, cyrl, "
     "grek, arab), GDEF 1.3 with an item variation store of four regions; tuples are passed as normalised coordinates; "
     "a shaping call that returns Err((error, infos)) is a call like any other: error and infos are both part of the value",
@@ -116,7 +132,8 @@ def run(ctx):
              ("rel", ("readCache.position",)),
              ("img", ("images.filter",)),
              ("cap", ("lookups.capacity",)),
-             ("var", ("scratch.failedCall", "gdef.regionScalar")))
+             ("var", ("scratch.failedCall", "gdef.regionScalar")),
+             ("memo", ("images.negativeGlyph", "lookupCache.lastSubtable")))
 
     def defect_run(mode):
         cnt = {}
@@ -153,6 +170,9 @@ def run(ctx):
     fill_fresh = rep.pop("fill_fresh_results", [])
     var_self = rep.pop("var_selfcheck", []) + rec.pop("var_selfcheck", [])
     var_fresh = rep.pop("var_fresh_results", []) + rec.pop("var_fresh_results", [])
+    strike_self = rep.pop("strike_selfcheck", []) + rec.pop("strike_selfcheck", [])
+    pairs_self = rep.pop("pairs_selfcheck", []) + rec.pop("pairs_selfcheck", [])
+    pairs_fresh = rep.pop("pairs_fresh_results", []) + rec.pop("pairs_fresh_results", [])
     facts = rep.get("input_facts", {})
     ctx.note("replay: %s" % json.dumps(rep, sort_keys=True))
     ctx.note("record: %s" % json.dumps(rec, sort_keys=True))
@@ -198,6 +218,27 @@ def run(ctx):
                 and sc["feature_variations_effective"] and sc["failing_rvrn_reports_error"]
                 and sc["failing_main_stage_reports_error"] and sc["rvrn_and_frac_effective"] and sc["arabic_forms_depend_on_rvrn"]):
             deferred.append("var font: shaping on a fresh font does not depend on tuple / rvrn / broken lookups as the layout says: %s" % json.dumps(sc))
+    if len(strike_self) < 4 or len(pairs_self) < 3:
+        raise vlib.ToolError("strike / pairs fonts missing: %s / %s" % (json.dumps(strike_self), json.dumps(pairs_self)))
+    for sc in strike_self:
+        if not sc["declared_as_dictated"] or sc["bitmaps_found"] != sc["bitmaps_expected"] or sc["bitmaps_expected"] == 0:
+            raise vlib.ToolError("strike font does not have the strikes the model dictates: %s" % json.dumps(sc))
+    if not any(sc["distinct_bit_depths"] >= 3 and sc["glyphs_only_in_deeper_strikes"] >= 2 for sc in strike_self):
+        raise vlib.ToolError("vacuous: no strike font whose strikes differ in bit depth: %s" % json.dumps(strike_self))
+    for sc in pairs_self:
+        if (not sc["layout_confirmed"] or not sc["objs_match_sub_tables"] or sc["facts_confirmed"] < 10
+                or sc["pairs_handled_by_several_sub_tables"] < 1 or sc["pairs_handled_by_a_later_sub_table_only"] < 1):
+            raise vlib.ToolError("pairs font does not have the layout the model dictates: %s" % json.dumps(sc))
+    for sc in pairs_fresh:
+        if sc["kerning_as_first_handling_sub_table"] != sc["two_letter_texts"]:
+            deferred.append("pairs font: kerning on a fresh font is not that of the first sub-table that handles the pair: %s" % json.dumps(sc))
+    rfacts = rec.get("input_facts", {})
+    if (facts.get("strike_shallow_then_deeper_limit", 0) == 0 or facts.get("strike_two_sizes", 0) == 0
+            or facts.get("pairs_later_sub_table_then_overlapping_pair", 0) == 0
+            or rfacts.get("strike_shallow_then_deeper_limit", 0) == 0 or rfacts.get("strike_two_sizes", 0) == 0
+            or rfacts.get("pairs_later_sub_table_then_overlapping_pair", 0) == 0):
+        raise vlib.ToolError("vacuous run: strike / pairs histories that can expose a per-glyph or per-lookup memo are missing: %s / %s"
+                             % (json.dumps(facts), json.dumps(rfacts)))
     # vacuity from inputs: the histories that can expose the classes were generated and executed
     fk = facts.get("fill_distinct_keys_before_probe", {})
     need = 100
@@ -216,8 +257,8 @@ def run(ctx):
                              % (json.dumps(facts), json.dumps(rec.get("fill_random_distinct_arguments"))))
     hb = rep.get("histories_by_family", {})
     rhb = rec.get("histories_by_family", {})
-    if (any(hb.get(f, 0) == 0 for f in ("dmg", "collide", "img", "fill", "scopes", "var"))
-            or any(rhb.get(f, 0) == 0 for f in ("dmg", "collide", "img", "scopes", "fill-random", "var"))):
+    if (any(hb.get(f, 0) == 0 for f in ("dmg", "collide", "img", "fill", "scopes", "var", "strike", "pairs"))
+            or any(rhb.get(f, 0) == 0 for f in ("dmg", "collide", "img", "scopes", "fill-random", "var", "strike", "pairs"))):
         raise vlib.ToolError("vacuous run: a family of histories was not executed: %s / %s" % (json.dumps(hb), json.dumps(rhb)))
     if (rep.get("damaged_probes_reporting_the_error", 0) == 0 or rep.get("damaged_variants", 0) < 20
             or rec.get("damaged_calls_reporting_the_error", 0) == 0):
@@ -275,7 +316,12 @@ def run(ctx):
                           # (8) a tuple-shaping call that differs after a call that failed half-way; (9) positioning under
                           # one tuple that differs after positioning under another
                           ("selftest-8", lambda c: c["font"]["fam"] == "var" and c["font"]["sub"] == "" and len(c["path"]) == 1 and c["path"][0].get("script") == "s2" and c["path"][0].get("tuple") != "none"),
-                          ("selftest-9", lambda c: c["font"]["fam"] == "var" and c["font"]["sub"] == "" and len(c["path"]) == 1 and c["path"][0].get("script") == "s1" and c["path"][0].get("tuple") == "tA")):
+                          ("selftest-9", lambda c: c["font"]["fam"] == "var" and c["font"]["sub"] == "" and len(c["path"]) == 1 and c["path"][0].get("script") == "s1" and c["path"][0].get("tuple") == "tA"),
+                          # (10) an image lookup that differs after a lookup of the same glyph under a lower bit depth limit;
+                          # (11) kerning that differs after another text was shaped; (12) a fresh answer that is not the model's
+                          ("selftest-10", lambda c: c["font"]["fam"] == "strike" and len(c["path"]) == 2 and c["path"][0].get("f") == 15 and c["path"][1].get("g") == 3 and c["path"][1].get("depth") == 1),
+                          ("selftest-11", lambda c: c["font"]["fam"] == "pairs" and len(c["path"]) == 1 and c["path"][0].get("text") == "AB"),
+                          ("selftest-12", lambda c: c["font"]["fam"] == "strike" and len(c["path"]) == 1 and c["path"][0].get("f") == 15)):
             cs = [c for c in cases if pick(c)]
             if not cs:
                 raise vlib.ToolError("no case generated for the planted event %s" % tag)
@@ -284,20 +330,32 @@ def run(ctx):
             for pc in c["path"]:
                 k += 1
                 f.write(json.dumps({"i": k, "case": tag, "ev": "Call", "a": {"call": pc, "probe": False}, "o": {"differs": False}}) + "\n")
-            if tag in ("selftest-8", "selftest-9"):
+            obs = None
+            if tag in ("selftest-10", "selftest-12"):
+                probe = [x["call"] for x in c["fan"] if x["call"]["op"] == "Image" and x["call"]["g"] == 3 and x["call"].get("depth") == 8 and x["call"].get("ppem") == 10][0]
+                if tag == "selftest-12":   # the model selects the strike of size 12, depth 8 for it
+                    obs = [24, 8]
+            elif tag == "selftest-11":
+                probe = [x["call"] for x in c["fan"] if x["call"]["op"] == "Shape" and x["call"].get("text") == "AC" and x["call"]["kern"]][0]
+            elif tag in ("selftest-8", "selftest-9"):
                 probe = [x["call"] for x in c["fan"] if x["call"]["op"] == "Shape" and x["call"]["script"] == "s1" and x["call"]["tuple"] == "tB"
                          and not x["call"]["custom"] and x["call"]["kern"] and x["call"]["frac"]][0]
             else:
                 probe = [x["call"] for x in c["fan"] if x["call"]["op"] in ("Image", "ReadCached") or x["call"].get("frac")][0]
             k += 1
-            f.write(json.dumps({"i": k, "case": tag, "ev": "Call", "a": {"call": probe, "probe": True}, "o": {"differs": True}}) + "\n")
+            o = {"differs": True} if obs is None else {"differs": False, "obs": obs}
+            f.write(json.dumps({"i": k, "case": tag, "ev": "Call", "a": {"call": probe, "probe": True}, "o": o}) + "\n")
             k += 1
-    other = {"IMPURE": []}
+    other = {"IMPURE": [], "UNBOUND": []}
     total, mism = vlib.judge_trace_parallel(ctx, "Trace_FontCache", "Trace_FontCache.cfg", trace, "judge",
                                             parts=8 if ctx.quick else 14, other_tags=other, timeout=3000)
     ctx.note("judge: %d events, %d explained impurities, %d unexplained" % (total, len(other["IMPURE"]), len(mism)))
-    planted = {m["case"] for m in mism if m["case"].startswith("selftest")}
-    if planted != {"selftest-%d" % n for n in range(1, 10)}:
+    planted = {m["case"] for m in mism if m["case"].startswith("selftest")} | {m["case"] for m in other["UNBOUND"] if m["case"].startswith("selftest")}
+    unbound = [m for m in other["UNBOUND"] if not m["case"].startswith("selftest")]
+    if unbound:
+        deferred.append("%d fresh answers on strike / pairs fonts are not what the model's font semantics gives, e.g. %s"
+                        % (len(unbound), vlib.short(unbound[0], 400)))
+    if planted != {"selftest-%d" % n for n in range(1, 13)}:
         raise vlib.ToolError("binding self-check failed: planted events flagged = %s" % sorted(planted))
     violations = []
     for m in other["IMPURE"]:
@@ -350,6 +408,17 @@ def run(ctx):
         "var_random_input_facts": {k: v for k, v in rec.get("input_facts", {}).items() if k.startswith("var_")},
         "var_font_selfchecks": var_self[:3],
         "var_fresh_results": var_fresh[:3],
+        "strike_histories_executed": facts.get("strike_histories", 0),
+        "strike_histories_lower_then_higher_bit_depth_limit_on_one_glyph": facts.get("strike_shallow_then_deeper_limit", 0),
+        "strike_histories_two_sizes_on_one_glyph": facts.get("strike_two_sizes", 0),
+        "pairs_histories_executed": facts.get("pairs_histories", 0),
+        "pairs_histories_later_sub_table_then_overlapping_pair": facts.get("pairs_later_sub_table_then_overlapping_pair", 0),
+        "strike_pairs_random_input_facts": {k: v for k, v in rfacts.items() if k.startswith("strike_") or k.startswith("pairs_")},
+        "strike_font_selfchecks": strike_self[:4],
+        "pairs_font_selfchecks": pairs_self[:3],
+        "pairs_fresh_results": pairs_fresh[:3],
+        "fresh_answers_compared_with_the_model": sum(1 for _ in open(gen_trace) if '"obs"' in _),
+        "fresh_answers_not_as_modelled": len(unbound),
         "deferred_selfchecks_failed": deferred,
         "predicted_impure_state_call_pairs": n_pred[0],
         "probes_executed": rep["probes"],
@@ -373,7 +442,7 @@ def run(ctx):
         "explained_impurities": len(other["IMPURE"]),
         "pure_operation_groups_repeated": len(groups),
         "events_judged": total,
-        "binding_selfcheck": "unexplained differences (intact, damaged-table, collide, img, fill, scopes and var subjects) and unequal digests rejected",
+        "binding_selfcheck": "unexplained differences (intact, damaged-table, collide, img, fill, scopes, var, strike and pairs subjects), a fresh answer that is not the model's and unequal digests rejected",
         "exhaustive": True,
         "explanation": "exhaustive over histories of the cache model (%s); random histories and repeated pure operations sampled" % cfg,
     }
